@@ -17,7 +17,10 @@ def main():
     from vf.ctx import Ctx
     mod = importlib.import_module("vf.props." + prop.lower())
     ctx = Ctx(prop, spec)
+    if bool(spec.get("optimize")) == bool(__debug__):
+        raise RuntimeError("shard optimisation level differs from its plan")
     mod.run(spec, ctx)
+    ctx.counters["shards.python_O" if not __debug__ else "shards.python_default"] += 1
     tmp = out + ".tmp"
     with open(tmp, "w") as f:
         json.dump(ctx.dump(), f, default=repr)
